@@ -221,6 +221,7 @@ def plainEv : Ev → Bool
   | .ok _ _ _ => false
   | .relo _ _ _ => false
   | .dead _ _ _ => false
+  | .rnw _ _ _ => false
   | _ => true
 
 theorem heldReplay_plain (tr evs : List Ev) (h : evs.all plainEv = true) :
@@ -289,6 +290,21 @@ theorem invH_relo (c : Cfg) (tid : Nat) (k : Key) (t' : Thread) (store' : Store)
     have hne : (j, k') ≠ (tid, (k.1, k.2)) := fun x => e (by injection x)
     exact ⟨(List.mem_erase_of_ne hne).mpr (h.2 j k' hj).1, (h.2 j k' hj).2⟩
 
+theorem invH_rnw (c : Cfg) (tid : Nat) (k : Key) (t' : Thread) (store' : Store)
+    (hk : (c.threads tid).own = some k) (ho : t'.own = (c.threads tid).own) (hb : t'.hb = (c.threads tid).hb)
+    (h : InvH c) :
+    InvH { c with store := store', threads := upd c.threads tid t',
+                  trace := c.trace ++ [.rnw tid k.1 k.2] } := by
+  unfold InvH at *
+  simp only
+  rw [heldReplay_snoc]
+  have hm := (h.2 tid k hk).1
+  refine ⟨by simp [heldStep, h.1, hm], ?_⟩
+  intro j k' hj
+  by_cases e : j = tid
+  · subst e; rw [upd_self] at hj ⊢; rw [ho] at hj; rw [hb]; simpa [heldStep] using h.2 j k' hj
+  · rw [upd_ne _ _ _ _ e] at hj ⊢; simpa [heldStep] using h.2 j k' hj
+
 theorem failThread_own (P : Params) (kind a : Nat) (t : Thread) : (failThread P kind a t).own = t.own := by
   unfold failThread; split <;> rfl
 
@@ -317,7 +333,7 @@ theorem invH_stepThread (P : Params) (c : Cfg) (tid : Nat) (hhb : P.hbSurvives =
     · exact invH_plain c _ [_] rfl rfl (own_upd _ _ _ (fun k hk => ⟨hk, rfl⟩)) h
     · rename_i k hk
       split
-      · exact invH_plain c _ [_] rfl rfl (own_upd _ _ _ (fun k hk => ⟨hk, rfl⟩)) h
+      · exact invH_rnw c tid k _ _ hk rfl rfl h
       · rename_i hdead
         exact absurd (h.2 tid k hk).2 hdead
   · split
@@ -409,7 +425,7 @@ theorem held_count (x : Nat × Key) (tr : List Ev) (s : Held × Bool)
         simp [h2] at hc ⊢; omega
     | exh _ _ => exact ⟨hs, by simpa [heldStep] using hc⟩
     | rel _ _ _ => exact ⟨hs, by simpa [heldStep] using hc⟩
-    | rnw _ _ _ => exact ⟨hs, by simpa [heldStep] using hc⟩
+    | rnw _ _ _ => simp only [heldStep, Bool.and_eq_true] at hs hc; exact ⟨hs.1, by simpa using hc⟩
     | nop _ => exact ⟨hs, by simpa [heldStep] using hc⟩
     | err _ => exact ⟨hs, by simpa [heldStep] using hc⟩
     | dead _ _ _ => simp [heldStep] at hs
